@@ -198,6 +198,45 @@ mut('c20-shared-list', ['C20'], CL,
 mut('c20-parse-copy-queue', ['C20'], PR,
     [("m = message.parseMessage(rawMsg, self._receivedFDs)", "m = message.parseMessage(rawMsg, [])")], ['C20.D3'])
 
+# ---- C06 ------------------------------------------------------------------
+AU = 'txdbus/authentication.py'
+mut('c06-begin-no-state-guard', ['C06'], AU,
+    [("        if self.state == 'WaitingForBegin':\n            self.authenticated = True\n            self.guid = self.current_mech.getUserName()\n            self.current_mech = None\n        else:\n            raise DBusAuthenticationFailed('Protocol violation')",
+      "        if self.current_mech is not None:\n            self.authenticated = True\n            self.guid = self.current_mech.getUserName()\n            self.current_mech = None\n        else:\n            raise DBusAuthenticationFailed('Protocol violation')")],
+    ['C06.D1', 'C06.D2'])
+mut('c06-continue-goes-to-begin', ['C06'], AU,
+    [("            self.sendAuthMessage(b'DATA ' + binascii.hexlify(challenge))\n            self.state = 'WaitingForData'",
+      "            self.sendAuthMessage(b'DATA ' + binascii.hexlify(challenge))\n            self.state = 'WaitingForBegin'")], ['C06.D1', 'C06.D2'])
+mut('c06-reject-keeps-mech', ['C06'], AU,
+    [("        if self.current_mech:\n            self.current_mech.cancel()\n            self.current_mech = None\n\n        self.reject_count += 1",
+      "        if self.current_mech:\n            self.current_mech.cancel()\n\n        self.reject_count += 1")], kind='benign',
+    note='mechanism object survives a rejection but the state returns to WaitingForAuth, where it is never consulted: no observable change')
+mut('c06-reject-limit-ge', ['C06'], AU,
+    [("        if self.reject_count > self.MAX_REJECTS_ALLOWED:", "        if self.reject_count >= self.MAX_REJECTS_ALLOWED:")], ['C06.D3'])
+mut('c06-auth-in-waiting-for-data', ['C06'], AU,
+    [("    def _auth_AUTH(self, line):\n        if self.state == 'WaitingForAuth':", "    def _auth_AUTH(self, line):\n        if self.state != 'WaitingForBegin':")], ['C06.D2'])
+mut('c06-reject-state-not-reset', ['C06'], AU,
+    [("        self.sendAuthMessage(self.reject_msg)\n        self.state = 'WaitingForAuth'", "        self.sendAuthMessage(self.reject_msg)")], ['C06.D1', 'C06.D2'],
+    note='CANCEL in WaitingForBegin leaves the state: BEGIN then authenticates without a mechanism')
+mut('c06-cancel-in-begin-ignored', ['C06'], AU,
+    [("        if self.state in ('WaitingForData', 'WaitingForBegin'):\n            self.reject()\n        else:\n            self.sendError()",
+      "        if self.state in ('WaitingForData',):\n            self.reject()\n        else:\n            self.sendError()")], ['C06.D2'])
+mut('c06-max-rejects-6', ['C06'], AU,
+    [("    MAX_REJECTS_ALLOWED = 5", "    MAX_REJECTS_ALLOWED = 6")], ['C06.D3'])
+mut('c06-first-byte-unchecked', ['C06'], PR,
+    [("                if data[0] != 0:\n                    self.transport.loseConnection()\n                    return\n", "")], ['C06.D3'])
+mut('c06-long-line-processed', ['C06'], PR,
+    [("                if len(line) > self.MAX_AUTH_LENGTH:\n                    return self.authMessageLengthExceeded(line)\n                else:\n                    try:",
+      "                if len(line) > self.MAX_AUTH_LENGTH:\n                    self.authMessageLengthExceeded(line)\n                if True:\n                    try:")], ['C06.D3'])
+mut('c06-auth-length-64k', ['C06'], PR,
+    [("    MAX_AUTH_LENGTH = 16384", "    MAX_AUTH_LENGTH = 65536")], ['C06.D3'])
+mut('c06-external-ok-without-creds', ['C06'], AU,
+    [("        if not self.creds:\n            return ('REJECT', 'Unix credentials not available')\n        if not self.ok:",
+      "        if not self.ok:")], ['C06.D4'])
+mut('ok-c06-state-tuple', ['C06'], AU,
+    [("        if self.state in ('WaitingForAuth', 'WaitingForData',\n                          'WaitingForBegin'):\n            self.reject()",
+      "        if self.state is not None:\n            self.reject()")], kind='benign')
+
 # benign variants --------------------------------------------------------------
 mut('ok-int16-condexpr', ['C01', 'C02'], M,
     [("return 2, [struct.pack(lendian and '<h' or '>h', var)]",
